@@ -282,7 +282,7 @@ def inherit(ctx, vb):
         a, b = call[2][0], call[2][1]
         sides = any(x[0] == 'payload' and x[2] == 'Some' for x in walk(a) if isinstance(x, tuple)) and any(x[0] == 'payload' for x in walk(b) if isinstance(x, tuple))
         okn = bool(okty and zipped and every and sides)
-    ctx.ob(['C06', 'C16'], 'R-GUARD', 'G11|prefix-equal', okn, 'every base slot is compared for inequality with the derived slot in the same position (zip of both lists, unadapted, every iteration) ⇒ Err: %s' % det, gne[0].where() if gne else where)
+    ctx.ob(['C06', 'C16', 'C04'], 'R-GUARD', 'G11|prefix-equal', okn, 'every base slot is compared for inequality with the derived slot in the same position (zip of both lists, unadapted, every iteration) ⇒ Err: %s' % det, gne[0].where() if gne else where)
     # the comparison is the derived PartialEq of Function, whose struct carries the four fields
     adt = P.adts.get(FUNCTION)
     eqimpl = [i for i in P.impls if i['self_ty'] == FUNCTION and i.get('trait', '').startswith('std::cmp::PartialEq')]
